@@ -242,6 +242,15 @@ func funcFieldRoles(p *Prog, T *types.Named) (map[int]string, []string) {
 						if fn, _ := p.funcValueFrame(x, nil); fn != nil && fn.Blocks != nil {
 							defaults = append(defaults, fn)
 						}
+					case *ssa.Function:
+						if x.Blocks != nil && p.InModule(x) {
+							defaults = append(defaults, x)
+						}
+					case *ssa.UnOp:
+						// a package-level default created once (var defaultDecrease = func(x float64) float64 {...})
+						if fn := p.constFuncOf(x); fn != nil && fn.Blocks != nil && p.InModule(fn) {
+							defaults = append(defaults, fn)
+						}
 					}
 				}
 				walk(v, 0)
